@@ -46,6 +46,9 @@ def check(ck):
         _document_level(ck, repo, w)
     with ck.rule("R6"):
         rule_tables(ck, repo, w)
+        # 5.5.2.3 intersects possible-type sets: they must hold every (extension-added) member
+        from .c03 import possible_type_sets
+        possible_type_sets(ck, repo)
 
 
 # ---------------------------------------------------------------------------
@@ -286,6 +289,20 @@ def _errors_class(trace, rv):
     return "error" if built else "ok"
 
 
+def lone_anonymous_table(ck, repo, w):
+    """Shared with C18.R4: operations are indexed by name at request time, so several anonymous operations would collapse into one."""
+    m = w.validate_method("lone-anonymous-operation")
+    mv = FuncView(m)
+    apps = [c for c in mv.calls("append") if unparse(c.func.value) == "bad_nodes"]
+    ok = len(apps) == 1 and (f"len({m.positional_params[2]}) > 1", "T") in [(t, o) for t, o in mv.conditions(apps[0])] and \
+        any(t.endswith(".name is None") and o == "T" for t, o in mv.conditions(apps[0]))
+    ck.ob("lone-anonymous-operation: an operation is reported iff it is anonymous and the document has more than one operation", ok, m, apps[0] if apps else m.node,
+          construct="table:lone-anonymous")
+    errs = [c for c in mv.calls("append") if unparse(c.func.value) == "errors"]
+    ck.ob("lone-anonymous-operation: an error is produced only when such an operation exists", len(errs) == 1 and mv.guarded(errs[0], lambda t: t == "bad_nodes", "T"), m,
+          errs[0] if errs else m.node, construct="table:lone-anonymous:guard")
+
+
 def rule_tables(ck, repo, w):
     # ---- uniqueness family
     shapes = []
@@ -322,17 +339,7 @@ def rule_tables(ck, repo, w):
     ck.ob("find_nodes_by_name selects the nodes whose name equals the given one", len(r) == 1 and unparse(r[0].value) == f"[x for x in {a} if x.name and x.name.value == {b}]",
           fnb, fnb.node, construct="uniq:find_nodes_by_name")
 
-    # ---- LoneAnonymousOperation
-    m = w.validate_method("lone-anonymous-operation")
-    mv = FuncView(m)
-    apps = [c for c in mv.calls("append") if unparse(c.func.value) == "bad_nodes"]
-    ok = len(apps) == 1 and (f"len({m.positional_params[2]}) > 1", "T") in [(t, o) for t, o in mv.conditions(apps[0])] and \
-        any(t.endswith(".name is None") and o == "T" for t, o in mv.conditions(apps[0]))
-    ck.ob("lone-anonymous-operation: an operation is reported iff it is anonymous and the document has more than one operation", ok, m, apps[0] if apps else m.node,
-          construct="table:lone-anonymous")
-    errs = [c for c in mv.calls("append") if unparse(c.func.value) == "errors"]
-    ck.ob("lone-anonymous-operation: an error is produced only when such an operation exists", len(errs) == 1 and mv.guarded(errs[0], lambda t: t == "bad_nodes", "T"), m,
-          errs[0] if errs else m.node, construct="table:lone-anonymous:guard")
+    lone_anonymous_table(ck, repo, w)
 
     # ---- LeafFieldSelections
     m = w.validate_method("leaf-field-selections")
